@@ -260,6 +260,10 @@ class ConfigPlayer(LogMixin, metaclass=abc.ABCMeta):
             except asyncio.CancelledError:
                 return
 
+            if subscription_list.get(template) is not future:
+                # the subscription fired but the player events have been unloaded before we got here
+                return
+
         if self.machine.stop_future.done():
             return
 
@@ -326,6 +330,8 @@ class ConfigPlayer(LogMixin, metaclass=abc.ABCMeta):
         """Remove event for standalone player."""
         for future in key_list[1].values():
             future.cancel()
+        # a subscription which fired already cannot be cancelled any more. make sure it will not subscribe again
+        key_list[1].clear()
         self.machine.events.remove_handlers_by_keys(key_list[0])
 
     def config_play_callback(self, settings, calling_context, priority=0, mode=None, **kwargs):
